@@ -35,8 +35,8 @@ def rules(ck, P='C11'):
                 w.store = w.store.add(le(args[i - 1][3], Lin.c(65535)))
     a = analyse_writer(ck, ENC + 'encap_frag', tag='c11', extra={'kslots': 6}, premise=pdu_fits_total_length)
     env, rows = writer_rows(ck, a, 'encap_frag')
-    B, P, c = env['B'], env['P'], env['c']
-    r = P - c
+    B, PL, c = env['B'], env['P'], env['c']
+    r = PL - c
     end_possible = [le(r + 7, B), le(r + 5, Lin.c(4095))]
     n_int = n_end = n_err = 0
     for w, rv in a.rets:
@@ -94,14 +94,14 @@ def rules(ck, P='C11'):
                     bad.append('the final packet would fit')
                 if w.store.satisfiable_with(le(Lin.c(4), B), le(Lin.c(1), r)):
                     bad.append('at least one payload byte would fit')
-                if w.store.satisfiable_with(le(Lin.c(7), B), le(c, P)):
+                if w.store.satisfiable_with(le(Lin.c(7), B), le(c, PL)):
                     bad.append('the buffer has 7 bytes or more')
                 if bad:
                     ck.finding(f'{P}.R3', ENC + 'encap_frag', 'spurious-size-error', f"encap_frag: ErrorSizeBuffer is returned although {' / '.join(bad)}")
                 else:
                     ck.discharged += 1
             elif e == 'ErrorPduLength':
-                if w.store.satisfiable_with(le(c, P)):
+                if w.store.satisfiable_with(le(c, PL)):
                     ck.finding(f'{P}.R3', ENC + 'encap_frag', 'spurious-pdu-length-error', 'encap_frag: ErrorPduLength although the context lies inside the PDU')
                 else:
                     ck.discharged += 1
@@ -116,7 +116,7 @@ def rules(ck, P='C11'):
         if row['src'][0] == 'pdu':
             npdu += 1
             W = row['W']
-            if not W.store.entails_eq(row['src'][1], c) or not W.store.entails_eq(row['src'][2], row['len']) or not W.store.entails(le(c + row['len'], P)):
+            if not W.store.entails_eq(row['src'][1], c) or not W.store.entails_eq(row['src'][2], row['len']) or not W.store.entails(le(c + row['len'], PL)):
                 ck.finding(f'{P}.R2', ENC + 'encap_frag', 'payload-window', f"encap_frag: payload is not pdu[position .. position+n) (source starts at {row['src'][1].pretty()})", row['site'])
     ck.rule(f'{P}.R2 payload copies of encap_frag', npdu, 2)
     # ------------------------------------------------ first fragment
